@@ -194,6 +194,14 @@ pub fn nvars_of(nq: u32, gs: &[G]) -> usize {
                 coll.iter().for_each(|c| t(c, m));
                 body.iter().for_each(|b| g(b, m));
             }
+            G::Match(_, tt, arms) => {
+                t(tt, m);
+                for (pats, body) in arms {
+                    pats.iter().for_each(|p| t(p, m));
+                    body.iter().for_each(|b| g(b, m));
+                }
+            }
+            G::Call(_, ts) => ts.iter().for_each(|x| t(x, m)),
             G::Succeed | G::Fail | G::Probe(_) => {}
         }
     }
